@@ -50,7 +50,8 @@ PROPS = {
         level_note="The reference interpreter is the trusted statement of the documented semantics. State merging is by the canonical reference table; it is sound because each transition checks that the real table equals that canonical form, so merged states have equal real tables. Effective-weight round trip tolerance 5e-4.",
         units=[
         unit("c05", "route", ROUTE_COMMON + ["route/c05_test.go"], "^TestVerifC05"),
-    ], layers={"quick": ["c05-commands"], "thorough": ["c05-commands"]}),
+        unit("c05-api", "admin/api", ["adminapi/c05_test.go"], "^TestVerifC05API"),
+    ], layers={"quick": ["c05-commands", "c05-api"], "thorough": ["c05-commands", "c05-api"]}),
     "C06": dict(level="model_checking", engine="vsched",
         technique="stateless model checking: controlled scheduler + preemption-bounded DFS over the real lookup path; separate free-running -race pass",
         level_text="Every interleaving (up to the preemption bound reported in the evidence; statement-level scheduling points in picker.go, glob_cache.go, target.go, table.go) of 2-3 concurrent lookups over redirect routes, equal and weighted round-robin routes, a glob cache at its fill and eviction boundaries, and lookups concurrent with SetTable, is executed on the real code and checked: own redirect Location, exact round-robin shares, cache within size and never failing, decisions independent of other requests. The same bodies run free under the race detector.",
@@ -63,8 +64,9 @@ PROPS = {
         level_note="Interleavings are sequentially consistent at sync-op + statement granularity of route/table.go; update histories are delivered synchronously (causal barrier) so the asynchronous timing of Consul is not modelled here (C01 does).",
         units=[route_sched("c02-sched", "^TestVerifC02Sched", shards={"quick": 1, "thorough": 16}),
                unit("c02-text", "route", ROUTE_COMMON + ["route/c02_text_test.go"], "^TestVerifC02Text"),
-               unit("c02-hist", ".", MAIN_COMMON + ["main/c02_hist_test.go"], "^TestVerifC02Hist")],
-        layers={"quick": ["c02-sched", "c02-text", "c02-hist"], "thorough": ["c02-sched", "c02-text", "c02-hist"]}),
+               unit("c02-hist", ".", MAIN_COMMON + ["main/c02_hist_test.go"], "^TestVerifC02Hist"),
+               unit("c02-custom", "registry/custom", ["custom/c02_test.go"], "^TestVerifC02Custom")],
+        layers={"quick": ["c02-sched", "c02-text", "c02-hist", "c02-custom"], "thorough": ["c02-sched", "c02-text", "c02-hist", "c02-custom"]}),
     "C12": dict(level="exploration", engine="benum",
         technique="bounded-exhaustive enumeration of rule strings x peers x X-Forwarded-For chains x credentials against a netip reference; end-to-end through HTTPProxy and the TCP proxies",
         level_text="Every allow/deny list of up to 2 items from a 13-item alphabet (well-formed and malformed), 10 peer addresses (v4, v6, zone-scoped, v4-mapped), 7 X-Forwarded-For shapes, through the real option parser and AccessDeniedHTTP/TCP; auth scheme x credentials matrix; end-to-end status codes and upstream hit counters through HTTPProxy.ServeHTTP and the tcp proxies.",
